@@ -1,9 +1,7 @@
-(* C02 -- computeDeterminantSecondDerivative(tensor<N>) = second derivative of the determinant (used in the thorough tier
-   when the finding recorded under C06, keys run:tensor_det2:N2/N3, is absent) (statements only; every proof is `exact`
-   of lemmas generated and proved per component).
+(* C02 -- computeDeterminantSecondDerivative(tensor) (thorough tier, used when the finding shared with C06 is absent) (statements only; every proof is `exact` of lemmas generated and proved per component).
    Regenerate with mkprops.py when the operation registry of trace.cxx changes. *)
 From Coq Require Import Reals List.
-Require Import TensorIndex C02Spec C02_g2_n1_p0 C02_g2_n2_p1 C02_g2_n3_p3.
+Require Import TensorIndex C02Spec C02_g2_n1_p0 C02_g2_n2_p0 C02_g2_n2_p1 C02_g2_n3_p0 C02_g2_n3_p1 C02_g2_n3_p2 C02_g2_n3_p3.
 
 Import ListNotations.
 Local Open Scope R_scope.
